@@ -14,6 +14,7 @@ interval and interleaved CGenerator visits complete the picture.
 """
 import hashlib
 import json
+import re
 import random
 import sys
 import threading
@@ -30,11 +31,14 @@ PROGS = [
     "# 40 \"b.h\"\nstruct T { int T; } T; int w = sizeof(T);",
     "# 1 \"x.c\"\nint a;\n# 7 \"x.h\"\nint a2;",
     "# 9 \"y.c\"\nint b;\n# 3 \"y.h\"\nint b2;",
+    # C89 implicit int: the parser supplies the type node itself
+    "# 3 \"m.c\"\nm() { } m2(x) { }",
+    "\n\n   k() { } static k2(const n) { }",
 ]
 LONG = [
-    "# 11 \"l1.c\"\ntypedef int T; typedef T *PT; struct S { T a; PT b; }; T f(T x) { { T T; T * x; } return (T)x; }\n# 9 \"l1.h\"\nT g;",
-    "# 22 \"l2.c\"\nint T, PT; int h(int S) { T * PT; S = T + PT; return sizeof T; }\n#pragma p q\nint k = T;",
-    "# 33 \"l3.c\"\nenum { T, U }; int m[] = { T, U, [2] = T * U };\n# 77 \"l3.h\"\nint n = T ? U : T;",
+    "# 11 \"l1.c\"\ntypedef int T; typedef T *PT; struct S { T a; PT b; }; T f(T x) { { T T; T * x; } return (T)x; }\n# 9 \"l1.h\"\nT g; q1() { return 1; }",
+    "# 22 \"l2.c\"\nint T, PT; int h(int S) { T * PT; S = T + PT; return sizeof T; }\n#pragma p q\nint k = T; static q2(const n) { return n; }",
+    "# 33 \"l3.c\"\nenum { T, U }; int m[] = { T, U, [2] = T * U };\n# 77 \"l3.h\"\nint n = T ? U : T; int q3(a, b) int a; { return a; } q4() { return 4; }",
 ]
 
 
@@ -158,8 +162,8 @@ def run(tier):
     ctx.cov["rule"] = ("every interleaving at token granularity of 2-3 parses of short programs with clashing names "
                        "(enumerated by TLC from Session.tla, replayed with a scheduling lexer), random schedules of long "
                        "programs, free-running threads; a case is one schedule")
-    plans = [([0, 1], 5), ([2, 3], 5), ([4, 5], 5), ([3, 4], 4), ([0, 1, 2], 2)] if tier == "quick" else \
-        [([0, 1], 7), ([2, 3], 7), ([4, 5], 7), ([0, 3], 6), ([3, 5], 6), ([0, 1, 2], 3), ([3, 4, 5], 3), ([0, 1, 2, 3], 1)]
+    plans = [([0, 1], 5), ([2, 3], 5), ([4, 5], 5), ([6, 7], 5), ([3, 4], 4), ([0, 1, 2], 2)] if tier == "quick" else \
+        [([0, 1], 7), ([2, 3], 7), ([4, 5], 7), ([6, 7], 8), ([0, 3], 6), ([3, 5], 6), ([0, 1, 2], 3), ([3, 4, 5], 3), ([0, 1, 2, 3], 1)]
     total = 0
     for idxs, ntok in plans:
         progs = [truncate(PROGS[i], ntok) for i in idxs]
@@ -191,7 +195,10 @@ def run(tier):
                 r = run_schedule(LONG, sched)
             for t in ptrace.assemble(rec.events):
                 if t["done"]:
-                    txt = [p for p in LONG if len(p) == t["n"]]
+                    # parse i is given the file name f<i>.c
+                    txt = [LONG[int(t["file"][1:-2])]] if re.fullmatch(r"f\d\.c", t["file"] or "") else []
+                    if txt and len(txt[0]) != t["n"]:
+                        raise common.MachineryError("trace of %s has text length %d, program has %d" % (t["file"], t["n"], len(txt[0])))
                     if txt and ptrace.ascii_ok(txt[0]):
                         traces.append(dict(text=txt[0], file=t["file"], ev=t["ev"]))
         else:
